@@ -42,7 +42,9 @@ Judge(e) ==
      /\ say(e.vol >= 0 /\ (HasN(w) => e.vol > 0), "volume-not-positive")
      /\ say(e.same, "repeated-run-differs")
      \* after the clauses above, so that it never hides one of them
-     /\ say(NoDegenerate(T), "degenerate-triangle")
+     \* C19 asks for directed-edge balance, not for the absence of zero-area triangles (unlike C05):
+     \* a triangle with two identified vertices is reported as drift only
+     /\ (IF NoDegenerate(T) THEN TRUE ELSE PrintT(<<"DRIFT", l>>))
      /\ (e.aligned => (IF SameAsModel(T, e.vbox, WorldTris(w, e.r)) THEN TRUE ELSE PrintT(<<"DRIFT", l>>)))
 
 Next == /\ l <= Len(Trace)
